@@ -5,7 +5,8 @@ use std::fmt::Display;
 pub const SPECS: [&str; 22] = [
     "", "<", "^", ">", "*<", "*^", "*>", "0<", "0^", "0>", "é<", "é^", "é>", "+", "#", "0", "+<", "#>", "-^", "_>", " <", "x^",
 ];
-pub const WIDTHS: usize = 18; // none, 0..=16
+pub const WIDTHS: usize = 21; // none, 0..=16, 33, 64, 100
+const WIDE: [usize; 3] = [33, 64, 100];
 pub const PRECS: usize = 10; // none, 0..=8
 
 macro_rules! arms {
@@ -37,7 +38,14 @@ pub fn cell(k: usize) -> (usize, Option<usize>, Option<usize>) {
     let si = k / (WIDTHS * PRECS);
     let w = (k / PRECS) % WIDTHS;
     let p = k % PRECS;
-    (si, if w == 0 { None } else { Some(w - 1) }, if p == 0 { None } else { Some(p - 1) })
+    let width = if w == 0 {
+        None
+    } else if w <= 17 {
+        Some(w - 1)
+    } else {
+        Some(WIDE[w - 18])
+    };
+    (si, width, if p == 0 { None } else { Some(p - 1) })
 }
 
 pub fn label(k: usize) -> String {
